@@ -18,6 +18,7 @@ import (
 //	S <schema>                      impl: S
 //	D <dataset>                     impl: D          (the dataset is written into a bolt file)
 //	Q <store> <zitiql hex> <term>   impl: R ok <QueryIds ids> <IterateIds ids> | R err | R panic
+//	F <float64 bits>                impl: F <hex of strconv.FormatFloat(v,'f',-1,64)>   (the model's formatter)
 func init() { commands["c01"] = runC01 }
 
 const c01Base = "root"
@@ -146,6 +147,16 @@ func runC01(o *opts) error {
 	// bounded-exhaustive operator sweep
 	nsweep := c01Sweep(r, dotted)
 	r.stats["sweep-filters"] = nsweep
+
+	// bounded-exhaustive sweep of literal syntax and number -> string coercion positions
+	r.stats["coerce-sweep-filters"] = c01SweepCoerce(r, dotted)
+
+	// the modelled float formatter against strconv.FormatFloat
+	nfmt := 400
+	if o.thorough() {
+		nfmt = 6000
+	}
+	r.stats["float-format-lines"] = c01FmtLines(r, g, nfmt)
 
 	// random datasets x typed random filters
 	ndatasets, perDataset := 150, 20
